@@ -392,4 +392,166 @@ theorem C13_split_spec (ns : List Nat) (z : Int) (k : Nat) (hk : k < ns.length) 
     ((split ns z 0).getD k 0).testBit i = (decide (i < ns[k]) && ibit z ((ns.take k).sum + i)) := by
   simpa using split_spec ns z 0 k hk i
 
+/-- Member independence (Go-value form), for values that `Fit`: replacing the
+value of one member by another fitting value changes no wire outside that
+member's own `Type.Bits` wires. -/
+theorem C13_set_member_independent_partial (t : Info) (pre post : List (Info × GoVal))
+    (ti : Info) (v v' : GoVal)
+    (hpre : ∀ m, m ∈ pre → Fits m.1 m.2) (hpost : ∀ m, m ∈ post → Fits m.1 m.2)
+    (hv : Fits ti v) (hv' : Fits ti v') :
+    ∃ r r' : Nat,
+      (Arg.mk t ((pre ++ (ti, v) :: post).map fun m => leaf m.1)).set ((pre ++ (ti, v) :: post).map (·.2)) = .ok r ∧
+      (Arg.mk t ((pre ++ (ti, v') :: post).map fun m => leaf m.1)).set ((pre ++ (ti, v') :: post).map (·.2)) = .ok r' ∧
+      ∀ j, j < totalBits pre + ti.bits + totalBits post →
+        (j < totalBits pre ∨ totalBits pre + ti.bits ≤ j) → r.testBit j = r'.testBit j := by
+  obtain ⟨r, hr, hrw⟩ := arg_set_compound t (pre ++ (ti, v) :: post) (by simp)
+    (by intro m hm; simp at hm; rcases hm with h | h | h
+        · exact hpre m h
+        · subst h; exact hv
+        · exact hpost m h)
+  obtain ⟨r', hr', hrw'⟩ := arg_set_compound t (pre ++ (ti, v') :: post) (by simp)
+    (by intro m hm; simp at hm; rcases hm with h | h | h
+        · exact hpre m h
+        · subst h; exact hv'
+        · exact hpost m h)
+  refine ⟨r, r', hr, hr', ?_⟩
+  intro j hj hout
+  have ht : ∀ x, totalBits (pre ++ (ti, x) :: post) = totalBits pre + ti.bits + totalBits post := by
+    intro x; rw [totalBits_append]; simp [totalBits, Nat.add_assoc]
+  rw [hrw j (by rw [ht]; exact hj), hrw' j (by rw [ht]; exact hj)]
+  simp only [encMembers_append, encMembers]
+  rcases hout with h | h
+  · simp [h]
+  · have h1 : ¬ j < totalBits pre := by omega
+    have h2 : ¬ j - totalBits pre < ti.bits := by omega
+    simp [h1, h2]
+
+example : Fits (.base .int 8 0) (.num true 8 (-1)) ∧ Fits (.base .int 8 0) (.num true 8 1) :=
+  ⟨Fits.num .int 8 0 true 8 (-1) (Or.inl rfl) (by decide) (Or.inl (by decide)),
+   Fits.num .int 8 0 true 8 1 (Or.inl rfl) (by decide) (Or.inl (by decide))⟩
+
+/-- Arrays/slices of signed elements: element `i` is the two's complement
+reading (`toSigned`) of wires `i*w .. i*w+w-1`; the cell is unchanged (the
+sign fix happens on a temporary). -/
+theorem C13_result_inverts_array_int (tag : Tag) (htag : tag = .array ∨ tag = .slice) (bits count w a : Nat)
+    (hw : 1 ≤ w) (z : Int) :
+    result (.elem tag bits count (.base .int w a)) z =
+      .ok (.slice (if widthClass w = 0 then "big" else s!"int{widthClass w}")
+        ((List.range count).map fun i =>
+          if w ≤ 64 then .i (widthClass w) (toSigned w (lowBits (rsh z (i * w)) w))
+          else .big (toSigned w (lowBits (rsh z (i * w)) w))), z) := by
+  apply result_array tag htag bits count (.base .int w a) _ (by simp [elemTypeName]) z
+  intro i _
+  obtain ⟨h1, h2, h3⟩ := toSigned_range w (lowBits (rsh z (i * w)) w) hw (lowBits_lt _ _)
+  have := result_int w a hw (toSigned w (lowBits (rsh z (i * w)) w)) h1 h2
+  rw [h3] at this
+  exact ⟨_, this⟩
+
+/-- Inferred size, unsized `uint` argument: for a plain number spelling (not
+"_", not a bool literal, not the `NxHH` pattern) `InputSizes` yields exactly
+the number of bits written, `InstantiateWithSizes` gives the type that width,
+and the value fits it: no written bit is lost. -/
+theorem C13_inferred_size_uint (b n : Nat) (st : StrFacts) (N : Nat)
+    (hu : st.underscore = false) (hb : st.boolLit = none) (hre : st.hex0x = false → st.reHex = none)
+    (hnum : st.num = some (N : Int)) (hhex : st.hex0x = true → N < 2 ^ ((st.len - 2) * 4)) :
+    inputSize1 st = .ok (writtenBits st N) ∧
+    instantiate (.base .uint b n) false (writtenBits st N) = .ok (.base .uint (writtenBits st N) n) ∧
+    parseLeaf (.base .uint (writtenBits st N) n) st = .ok (N : Int) ∧
+    N < 2 ^ writtenBits st N := by
+  refine ⟨?_, by simp [instantiate], by simp [parseLeaf, hnum], ?_⟩
+  · by_cases hx : st.hex0x = true
+    · simp [inputSize1, hu, hb, hx, writtenBits]
+    · have hx' : st.hex0x = false := by simpa using hx
+      simp [inputSize1, hu, hb, hx', hre hx', hnum, writtenBits, bitLength]
+  · by_cases hx : st.hex0x = true
+    · simp only [writtenBits, hx, if_true]; exact hhex hx
+    · simp only [writtenBits, hx]; exact lt_two_pow_natBitLen N
+
+example : ∃ (st : StrFacts) (N : Nat), st.underscore = false ∧ st.boolLit = none ∧
+    (st.hex0x = false → st.reHex = none) ∧ st.num = some (N : Int) ∧
+    (st.hex0x = true → N < 2 ^ ((st.len - 2) * 4)) :=
+  ⟨⟨none, false, true, 6, some (some 0, 4), some 0xa0a1⟩, 0xa0a1, by decide⟩
+
+/-- Inferred size, slice argument with element width `w ≥ 1`: the slice is
+instantiated with `k = ⌈written bits / w⌉` elements and `Bits = k*w`, which is
+exactly the element count `Parse` reads from the same text (so Parse cannot
+fail with "too many values" and writes inside the `Bits` wires). -/
+theorem C13_inferred_size_slice (b n : Nat) (el : Info) (c : Bool) (st : StrFacts) (N : Nat) (hw : 0 < el.bits)
+    (hu : st.underscore = false) (hb : st.boolLit = none) (hre : st.hex0x = false → st.reHex = none)
+    (hnum : st.num = some (N : Int)) (hhex : st.hex0x = true → N < 2 ^ ((st.len - 2) * 4)) :
+    inputSize1 st = .ok (writtenBits st N) ∧
+    instantiate (.elem .slice b n el) c (writtenBits st N) =
+      .ok (.elem .slice (ceilDiv (writtenBits st N) el.bits * el.bits) (ceilDiv (writtenBits st N) el.bits) el) ∧
+    ∃ z : Nat, parseLeaf (.elem .slice (ceilDiv (writtenBits st N) el.bits * el.bits)
+        (ceilDiv (writtenBits st N) el.bits) el) st = .ok (z : Int) ∧
+      z < 2 ^ (ceilDiv (writtenBits st N) el.bits * el.bits) := by
+  refine ⟨(C13_inferred_size_uint 0 0 st N hu hb hre hnum hhex).1, ?_, ?_⟩
+  · have : el.bits ≠ 0 := by omega
+    simp [instantiate, this]
+  · obtain ⟨z, hz, _, hz2, _⟩ := C13_parse_array_elements .slice (Or.inr rfl)
+      (ceilDiv (writtenBits st N) el.bits * el.bits) (ceilDiv (writtenBits st N) el.bits) el st N hnum hw hhex
+      (by simp)
+    refine ⟨z, hz, ?_⟩
+    apply Nat.lt_pow_two_of_testBit
+    intro i hi
+    exact hz2 i (by simpa using hi)
+
+/-- Whole compound arguments: if every member's text parses, every member's
+Go value `Fits`, and text and Go value of each member denote the same bits on
+that member's own wires (`hag`; for integers and bools this is
+`C13_member_agreement_int`/`_bool`, for arrays the content of
+`C13_array_wire_bits_parse_eq_set`), then `Parse` and `Set` put the same bits
+on all wires of the argument. -/
+theorem C13_compound_wire_bits_parse_eq_set_partial (t : Info) (ms : List (Info × StrFacts × Int × GoVal))
+    (hne : ms ≠ [])
+    (hp : ∀ m, m ∈ ms → parseLeaf m.1 m.2.1 = .ok m.2.2.1)
+    (hf : ∀ m, m ∈ ms → Fits m.1 m.2.2.2)
+    (hag : ∀ m, m ∈ ms → ∀ i, i < m.1.bits → ibit m.2.2.1 i = encLeaf m.1 m.2.2.2 i) :
+    ∃ z r : Nat,
+      (Arg.mk t (ms.map fun m => leaf m.1)).parse (ms.map fun m => m.2.1) = .ok (z : Int) ∧
+      (Arg.mk t (ms.map fun m => leaf m.1)).set (ms.map fun m => m.2.2.2) = .ok r ∧
+      ∀ j, j < totalBits (ms.map fun m => (m.1, m.2.2.2)) → z.testBit j = r.testBit j := by
+  obtain ⟨z, hz, hzw⟩ := arg_parse_compound t (ms.map fun m => (m.1, m.2.1, m.2.2.1)) (by simpa using hne)
+    (by intro m hm; rw [List.mem_map] at hm; obtain ⟨a, ha, rfl⟩ := hm; exact hp a ha)
+  obtain ⟨r, hr, hrw⟩ := arg_set_compound t (ms.map fun m => (m.1, m.2.2.2)) (by simpa using hne)
+    (by intro m hm; rw [List.mem_map] at hm; obtain ⟨a, ha, rfl⟩ := hm; exact hf a ha)
+  simp only [List.map_map, Function.comp_def] at hz hr hzw hrw
+  refine ⟨z, r, hz, hr, ?_⟩
+  intro j hj
+  rw [hzw j, hrw j hj]
+  exact concat_eq_enc ms hag j hj
+
+example : ∃ ms : List (Info × StrFacts × Int × GoVal), ms ≠ [] ∧
+    (∀ m, m ∈ ms → parseLeaf m.1 m.2.1 = .ok m.2.2.1) ∧ (∀ m, m ∈ ms → Fits m.1 m.2.2.2) ∧
+    (∀ m, m ∈ ms → ∀ i, i < m.1.bits → ibit m.2.2.1 i = encLeaf m.1 m.2.2.2 i) :=
+  ⟨[(.base .int 8 0, ⟨none, false, false, 2, none, some (-1)⟩, -1, .num true 8 (-1))], by simp,
+    by simp [parseLeaf],
+    by intro m hm; simp at hm; subst hm
+       exact Fits.num .int 8 0 true 8 (-1) (Or.inl rfl) (by decide) (Or.inl (by decide)),
+    by intro m hm; simp at hm; subst hm; intro i _; rfl⟩
+
+/-- member-level agreement for integers: the parsed number and the Go value
+are the same number -/
+theorem C13_member_agreement_int (t : Info) (st : StrFacts) (s : Bool) (w : Nat) (v : Int)
+    (ht : t.tag = .int ∨ t.tag = .uint) (hnum : st.num = some v) :
+    parseLeaf t st = .ok v ∧ ∀ i, ibit v i = encLeaf t (.num s w v) i := by
+  refine ⟨?_, fun i => rfl⟩
+  rcases ht with h | h <;> simp [parseLeaf, h, hnum]
+
+/-- member-level agreement for bools (any of the six literals) -/
+theorem C13_member_agreement_bool (n : Nat) (st : StrFacts) (b : Bool) (hb : st.boolLit = some b) :
+    parseLeaf (.base .bool 1 n) st = .ok (if b then 1 else 0) ∧
+      ∀ i, ibit (if b then 1 else 0) i = encLeaf (.base .bool 1 n) (.bool b) i := by
+  cases b
+  · refine ⟨by simp [parseLeaf, hb], fun i => ?_⟩
+    simp only [encLeaf, Bool.and_false]
+    show Nat.testBit 0 i = false
+    simp
+  · refine ⟨by simp [parseLeaf, hb], fun i => ?_⟩
+    simp only [encLeaf, if_true, Bool.and_true]
+    show Nat.testBit 1 i = decide (i = 0)
+    cases i with
+    | zero => rfl
+    | succ k => simp [Nat.testBit_succ]
+
 end Mpc
